@@ -204,6 +204,18 @@ impl Ctx {
         }
     }
 
+    /// Run `f` with the corpus budget (cap and iters) divided by `div` — for cases that loop over
+    /// several shapes (e.g. all BoxedUint precision pairs) and share one budget.
+    pub fn scaled<R>(&mut self, div: usize, f: impl FnOnce(&mut Ctx) -> R) -> R {
+        let (cap, iters) = (self.cap, self.iters);
+        self.cap = (cap / div).max(64);
+        self.iters = (iters / div).max(16);
+        let r = f(self);
+        self.cap = cap;
+        self.iters = iters;
+        r
+    }
+
     /// Corpus for a unary case: capped edge list + `iters` random values.
     pub fn inputs1(&mut self, limbs: usize) -> Vec<BigUint> {
         let cap = self.cap;
